@@ -206,3 +206,87 @@ def withdraw_pays_caller(R, env, prog, dctx, arm, rule):
             k += 1
             R.ob(rule, "Withdraw:request-key:" + op["op"], good, "unstake request accessed under key %s, expected (batch id, info.sender)" % fmt(key)[:160], loc=op["loc"], fn=hk)
     R.floor(rule, "unstake_requests accesses in Withdraw", k, 2)
+
+
+# --------------------------------------------------------------------------- sites and who-may-write (P13)
+
+
+def site_contexts(prog, crate, env):
+    """site name -> Ctx: every ABI entry point and every ExecuteMsg variant (handler bound to the
+    dispatcher's terms).  Sites are ABI names, not function names."""
+    out = {}
+    for ep in ("instantiate", "migrate", "sudo", "reply", "query"):
+        b = prog.body("%s::contract::%s" % (crate, ep))
+        if b is not None:
+            out[ep] = Ctx(b)
+    dctx, table = handlers(prog, crate)
+    for v, arm in table.items():
+        if arm["calls"] and prog.body(arm["handlers"][0]):
+            out[v] = handler_ctx(prog, dctx, arm)
+    return out
+
+
+def write_value_alternatives(prog, op, ns):
+    """for a storage write op: list of (base, delta) of the value written; for `update` the closure
+    is evaluated with its parameter standing for the stored value."""
+    if op["op"] == "save":
+        val = op["args"][-1]
+        return struct_deltas(val)
+    if op["op"] == "update":
+        clo = op["args"][-1]
+        res = closure_result(prog, clo, params={2: ("stored", ns)})
+        if res is None:
+            return None
+        alts = []
+        for r in (res[1] if res[0] == "phi" else (res,)):
+            if r[0] == "agg" and r[2] == "Ok":
+                alts += struct_deltas(r[3][0][2])
+            elif r[0] == "agg" and r[2] == "Err":
+                continue
+            else:
+                return None
+        return alts
+    return None
+
+
+def is_stored_base(prog, base, ns, crate):
+    if base == ("stored", ns):
+        return True
+    if base[0] == "payload" and base[1] == ("stored", ns):
+        return True  # Option<T> parameter of Map::update unwrapped
+    return base[0] == "payload" and is_load(prog, base, ns, crate)
+
+
+def field_change_sites(prog, env, crate, ns, fields, sites=None):
+    """sites (ABI names) from which one of `fields` of the struct stored under `ns` may change.
+    A write whose value is not `loaded value + field updates` (or a fresh aggregate) counts as
+    changing every field (fail closed)."""
+    sites = sites or site_contexts(prog, crate, env)
+    out = {}
+    n_ops = 0
+    for site, c in sites.items():
+        for op in storage_ops_deep(prog, c, env.depth):
+            if op["kind"] != "w" or ns_of(prog, op["args"][0]) != ns or item_crate(op["args"][0]) != crate:
+                continue
+            if "migrations::states" in (storage_item_of(op["args"][0]) or ""):
+                continue
+            n_ops += 1
+            alts = write_value_alternatives(prog, op, ns)
+            changed = set()
+            if alts is None:
+                changed = set(fields)
+            else:
+                for base, d in alts:
+                    if base[0] == "agg":
+                        for f in fields:
+                            v = agg_field(base, f)
+                            if v is None or not (v[0] == "field" and v[2] == f and is_stored_base(prog, v[1], ns, crate)):
+                                changed.add(f)
+                    elif not is_stored_base(prog, base, ns, crate):
+                        changed |= set(fields)
+                    for p in d:
+                        if p[0] in fields:
+                            changed.add(p[0])
+            for f in changed:
+                out.setdefault(f, {}).setdefault(site, op)
+    return out, n_ops
